@@ -55,7 +55,7 @@ def spaces(tier):
         Space("subsample-many-categories", gen_many, "count vectors with 255..300 (thorough: 65537) categories, entries cycling through 0..top: n = total (one possible sub-sample, both orders) and n = 1 (every single item), conservation laws on every RNG answer", per_case=True),
         Space("downsample-all-multisets", gen_down, "multisets of 0..4(5) strings over {A,B,AB} as list/ndarray/Series/table/table with duplicated index labels x maxseqs in {None,0..N+1} x every RNG answer"),
         Space("powerlaw_sample-uniform-grid", gen_pl, "size 0..3 x xmin 1..4 x alpha {1.5,2,3.5} x uniform grid^size"),
-        Space("powerlaw_mle-all-multisets", gen_mle, "multisets of 1..4(5) counts from 1..6 x cmin {1,2} x 3 methods"),
+        Space("powerlaw_mle-all-multisets", gen_mle, "multisets of 1..4(5) counts from 1..6 x cmin {1, 2, 1.5, 2.5} (closed forms; exact fit for integer cmin) x 3 methods"),
     ]
 
 
@@ -261,7 +261,7 @@ def check_case(case, acc):
                 acc.ok()
     elif kind == "mle":
         c = list(case[1])
-        for cmin in (1, 2):
+        for cmin in (1, 2, 2.5, 1.5):
             xs = [x for x in c if x >= cmin]
             n = len(xs)
             for arr in (c, np.array(c)):
@@ -279,7 +279,7 @@ def check_case(case, acc):
                         acc.fail("powerlaw_mle_alpha/%s" % method, ("mle1", case[1], cmin, method), exp, r)
                         return
                     acc.ok((method, cmin, round(exp, 9) if math.isfinite(exp) else str(exp)), nontrivial=n > 0 and den > 0)
-            if n == 0:
+            if n == 0 or cmin != int(cmin):
                 continue
             for bounds in ((1.5, 4.5), (1.1, 3.0)):
                 kw = {} if bounds == (1.5, 4.5) else {"bounds": list(bounds)}
